@@ -236,3 +236,5 @@ func summarizeTree(m *refv6.Msg) any {
 	s := statsOf(m)
 	return map[string]any{"msg_type": m.Type, "relay": m.Relay, "options": s.nopts, "depth": s.depth, "types": s.types}
 }
+
+func encodeOptPayload(o *refv6.Opt) []byte { return refv6.EncodeOpt(o) }
